@@ -7,8 +7,7 @@ use crate::link::reader::LinkModes;
 use crate::link::EndpointAddress;
 use crate::outstation::Feature;
 use crate::transport::{
-    FragmentAddr, FragmentInfo, LinkLayerMessage, TransportData, TransportRequest,
-    TransportResponse,
+    FragmentInfo, LinkLayerMessage, TransportData, TransportRequest, TransportResponse,
 };
 use crate::util::phys::PhysLayer;
 
@@ -141,7 +140,12 @@ impl TransportReader {
         &mut self,
         master_address: Option<EndpointAddress>,
     ) -> RequestGuard<'_> {
-        if let Some(TransportRequest::Request(info, _)) = self.peek_request() {
+        let info = match self.peek_request() {
+            Some(TransportRequest::Request(info, _)) => Some(info),
+            Some(TransportRequest::Error(info, _)) => Some(info),
+            _ => None,
+        };
+        if let Some(info) = info {
             if let Some(required_master_addr) = master_address {
                 if info.addr.link != required_master_addr {
                     tracing::warn!(
@@ -162,7 +166,7 @@ impl TransportReader {
             Ok(ParsedTransportData::Fragment(info, fragment)) => match fragment.to_request() {
                 Ok(request) => Some(TransportRequest::Request(info, request)),
                 Err(err) => Some(TransportRequest::Error(
-                    info.addr,
+                    info,
                     err.into(fragment.control.seq),
                 )),
             },
@@ -176,7 +180,7 @@ impl TransportReader {
     fn parse(
         &mut self,
         peek: bool,
-    ) -> Option<Result<ParsedTransportData<'_>, (HeaderParseError, FragmentAddr)>> {
+    ) -> Option<Result<ParsedTransportData<'_>, (HeaderParseError, FragmentInfo)>> {
         let transport_data = if peek {
             self.inner.peek()?
         } else {
@@ -187,7 +191,7 @@ impl TransportReader {
             TransportData::Fragment(fragment) => Some(
                 ParsedFragment::parse(self.parse_options, fragment.data)
                     .map(|parsed| ParsedTransportData::Fragment(fragment.info, parsed))
-                    .map_err(|err| (err, fragment.info.addr)),
+                    .map_err(|err| (err, fragment.info)),
             ),
             TransportData::LinkLayerMessage(msg) => {
                 Some(Ok(ParsedTransportData::LinkLayerMessage(msg)))
